@@ -275,6 +275,8 @@ SOURCES = {
     "g": "def g(b: Qint[2]) -> Qint[2]:\n\treturn b + 2",
     "tup": "def tup(t: Tuple[bool, bool]) -> bool:\n\treturn t[0] ^ t[1]",
     "u": "def u(c: Parameter[Qint[2]], a: Qint[2]) -> bool:\n\treturn a == c",
+    "u2": "def u2(c: Parameter[Qlist[Qint[2], 4]], a: Qint[2]) -> Qint[2]:\n\treturn c[a]",
+    "red": "def red(a: bool, b: bool, c: bool) -> bool:\n\treturn (a and b) ^ (c and (a and b))",
 }
 CALLER = "def caller(x: Qint[2]) -> Qint[2]:\n\treturn g(x) + 1"
 
@@ -338,6 +340,10 @@ def do_op(op, live):
         return qlassf(SOURCES[op[1]], bool_optimizer=__import__("vlib.bounded", fromlist=["x"]).profiles()[op[2]])
     if kind == "bind":
         return live[op[1]].bind(c=op[2])
+    if kind == "decopt_preserve":
+        from qlasskit.decompiler import circuit_boolean_optimizer
+        qf = live[op[1]]
+        return circuit_boolean_optimizer(qf.circuit(), preserve=sorted(set(qf.input_qubits) | set(qf.output_qubits)))
     if kind == "defs":
         return qlassf(CALLER, defs=[live[op[1]]])
     if kind == "oraclize":
@@ -420,18 +426,21 @@ def fresh_reference(args):
 def histories(tier, seed):
     base_objs = [("o_f", ("compile", "f_and", "default")), ("o_flat", ("compile", "flatten", "default")), ("o_inc", ("compile", "test_inc", "default")),
                  ("o_id", ("compile", "test_id", "fast")), ("o_red", ("compile", "reduce", "default")), ("o_or", ("compile", "oracle", "default")),
-                 ("o_g", ("compile", "g", "default")), ("o_tup", ("compile", "tup", "default")), ("o_u", ("compile", "u", "default"))]
+                 ("o_g", ("compile", "g", "default")), ("o_tup", ("compile", "tup", "default")), ("o_u", ("compile", "u", "default")),
+                 ("o_u2", ("compile", "u2", "default")), ("o_redd", ("compile", "red", "default"))]
     unary = {"o_f": [], "o_flat": ["dj", "bv", "simon", "grover"], "o_inc": ["simon"], "o_id": ["dj", "bv", "grover"], "o_red": ["grover", "dj", "simon"],
-             "o_or": ["grover", "dj"], "o_g": ["defs", "simon"], "o_tup": ["grover", "dj"], "o_u": []}
+             "o_or": ["grover", "dj"], "o_g": ["defs", "simon"], "o_tup": ["grover", "dj"], "o_u": [], "o_u2": [], "o_redd": ["decopt_preserve", "dj", "grover"]}
     hs = []
     # every ordered pair of (operation x object) after building the pool
     ops = []
     for k, us in unary.items():
         for u in us:
             ops.append((None, (u, k)))
-        if k != "o_u":
+        if k not in ("o_u", "o_u2"):
             ops += [(None, ("export", k, "qasm")), (None, ("export", k, "qiskit")), (None, ("decompile", k)), (None, ("decopt", k)), (None, ("truth_table", k)), (None, ("to_logicfun", k))]
-    ops += [(None, ("oraclize", "o_g", 3)), (None, ("oraclize", "o_or", True)), (None, ("grover_el", "o_g", 3)), ("b1", ("bind", "o_u", 1)), ("b2", ("bind", "o_u", 2))]
+    ops += [(None, ("oraclize", "o_g", 3)), (None, ("oraclize", "o_or", True)), (None, ("grover_el", "o_g", 3)), ("b1", ("bind", "o_u", 1)), ("b2", ("bind", "o_u", 2)),
+            ("t1", ("bind", "o_u2", [1, 2, 3, 0])), ("t2", ("bind", "o_u2", [3, 3, 0, 1])), ("t3", ("bind", "o_u2", [0, 1, 0, 2])),
+            (None, ("decopt_preserve", "o_f")), (None, ("decopt_preserve", "o_red")), (None, ("decopt_preserve", "o_tup"))]
     r = random.Random(seed)
     n_hist = 12 if tier == "quick" else 60
     for i in range(n_hist):
@@ -442,7 +451,9 @@ def histories(tier, seed):
         chosen = r.sample(ops, 10 if tier == "quick" else 14)
         # recompile same-named sources in between (clashing names)
         extra = [("o_id2", ("compile", "test_id", "default")), ("o_inc2", ("compile", "test_inc", "fast")), ("o_flat2", ("compile", "flatten", "fast"))]
-        for t, op in chosen + r.sample(extra, 2):
+        forced = [("t1", ("bind", "o_u2", [1, 2, 3, 0])), ("t2", ("bind", "o_u2", [3, 3, 0, 1]))] if i % 2 == 0 else \
+                 [(None, ("decopt_preserve", "o_redd")), (None, ("export", "o_redd", "qasm")), (None, ("truth_table", "o_redd"))]
+        for t, op in chosen + r.sample(extra, 2) + forced:
             for need in needs(op):
                 if need not in built:
                     h.append(next(p for p in base_objs if p[0] == need))
@@ -501,6 +512,8 @@ def run(tier, only=None):
                     cr.append((n, creators[n]))
                 elif n in ("b1", "b2"):
                     cr += [("o_u", creators["o_u"]), (n, ("bind", "o_u", 1 if n == "b1" else 2))]
+                elif n in ("t1", "t2", "t3"):
+                    cr += [("o_u2", creators["o_u2"]), (n, ("bind", "o_u2", {"t1": [1, 2, 3, 0], "t2": [3, 3, 0, 1], "t3": [0, 1, 0, 2]}[n]))]
             need.setdefault(opkey(op), (opkey(op), target, op, cr))
     refs = {r["key"]: (r["ref"], r["rerr"]) for r in run_pool(reference_job, list(need.values()), fresh_process_per_task=True) if r.get("name") == "ref"}
     for h in hist_recs:
